@@ -48,7 +48,7 @@ META = {
             "is proved as 'accepted => verification accepted the altered tuple'.",
     "technique": "Coq proof (codec round trips, wiring, soundness of acceptance) + differential correspondence with call plans",
     "rule": "envelopes: 4 required + 0..20 extra attributes of all 12 types (boundary ints, NaN/sNaN floats, UTF-8 names), "
-            "any order, payload 0..20000 bytes (thorough: to > 4 MiB, crossing the 4 MiB decrypt chunk), padding "
+            "any order, payload 0..20000 bytes plus one payload of three 4 MiB decrypt chunks (thorough: one, two, three and four chunks), padding "
             "aligned/0/1/random/>4096, AAD none/ESXConfiguration/random, IV 1..64 bytes; tampering: every region of the "
             "header block (struct, attribute type/flag/reserved/name/value, terminator, tail), ciphertext, tag, other "
             "footer fields, AAD, key; exhaustive single-byte sweep of the attribute area + tag of a base envelope; "
@@ -652,6 +652,10 @@ class EnvelopeSuite(Suite):
         n_clean, n_tamper, n_mal, n_sweep, n_cli = (400, 1200, 500, 5, 100) if thorough else (40, 80, 60, 1, 18)
         for _ in range(n_clean):
             cases.append(gen_base(rng, tier))
+            if rng.chance(0.4):
+                # the decrypt loop under a small read size: many chunks for an ordinary payload (the module constant
+                # DECRYPT_CHUNK_SIZE is lowered for this one call; without that constant the case is an ordinary one)
+                cases[-1]["chunk"] = rng.pick([16, 512, 1000, 4096])
         for _ in range(n_tamper):
             cases.append(gen_tamper(rng, gen_base(rng, tier, snan_ok=False, small=rng.chance(0.7))))
         for _ in range(n_mal):
@@ -664,14 +668,15 @@ class EnvelopeSuite(Suite):
             cases += sweep(rng, base)
         for _ in range(n_cli):
             cases.append(self.gen_cli(rng, tier))
-        if thorough:
-            # payloads around one and two 4 MiB decrypt chunks (the read loop), one tampered
-            for i, n in enumerate((300000, 4194304 - 4096 - 7, 2 * 4194304 + 17)):
-                c = gen_base(rng, tier)
-                c["payload"] = gen_payload(rng, n)
-                cases.insert(i * 30, c)              # spread over different shards
-                if i == 0:
-                    cases.insert(45, gen_tamper(rng, c))
+        # payloads around one, two and three 4 MiB decrypt chunks (the read loop keeps its place over >= 3 chunks),
+        # one tampered; the quick tier carries the three-chunk case only
+        big = (300000, 4194304 - 4096 - 7, 2 * 4194304 + 17, 3 * 4194304 + 4321) if thorough else ()
+        for i, n in enumerate(big):
+            c = gen_base(rng, tier)
+            c["payload"] = gen_payload(rng, n)
+            cases.insert(min(len(cases), i * 30), c)              # spread over different shards
+            if i == 0 and thorough:
+                cases.insert(45, gen_tamper(rng, c))
         self.add_hints(cases)
         return cases
 
@@ -746,10 +751,16 @@ class EnvelopeSuite(Suite):
         except Exception as e:  # noqa: BLE001
             out["repack"] = exc_info(e)
         aad = b.aad if (b.aad or not case.get("aad_none")) else None
+        old_chunk = getattr(E, "DECRYPT_CHUNK_SIZE", None)
+        if case.get("chunk") and isinstance(old_chunk, int):
+            E.DECRYPT_CHUNK_SIZE = case["chunk"]
         try:
             out["dec"] = ("ok", env.decrypt(b.key, aad))
         except Exception as e:  # noqa: BLE001
             out["dec"] = ("err", exc_info(e))
+        finally:
+            if isinstance(old_chunk, int):
+                E.DECRYPT_CHUNK_SIZE = old_chunk
         return out
 
     _hook = {"installed": False, "events": None}
